@@ -140,16 +140,34 @@ class FakeFile:
 
 
 class CountLog:
-    """logger stub: counts access() calls and keeps their (status, sent) pairs"""
+    """logger stub: counts access() calls and keeps their (status, sent) pairs.
+    With render=True every access() call also runs the REAL Logger.atoms() and formats the default access_log_format through
+    SafeAtoms exactly where Logger.access() does (atoms() unguarded, formatting inside try/except): an exception in atoms()
+    propagates into the worker as it would with access logging switched on."""
 
-    def __init__(self):
+    FORMAT = '%(h)s %(l)s %(u)s %(t)s "%(r)s" %(s)s %(b)s "%(f)s" "%(a)s" %(U)s %(q)s %(M)s'
+
+    def __init__(self, render=False):
         self.access_calls = []
         self.access_reqs = []
         self.errors = 0
+        self.render = render
+        self.lines = []
 
     def access(self, resp, req, environ, request_time):
         self.access_calls.append((resp.status, resp.sent, getattr(resp, "response_length", None)))
         self.access_reqs.append(req)
+        if self.render:
+            from types import SimpleNamespace
+            from gunicorn import glogging as GL
+            lg = object.__new__(GL.Logger)
+            lg.cfg = SimpleNamespace()
+            lg.debug = lambda *a, **k: None
+            safe = GL.SafeAtoms(lg.atoms(resp, req, environ, request_time))
+            try:
+                self.lines.append(self.FORMAT % safe)
+            except Exception:
+                self.errors += 1
 
     def exception(self, *a, **k):
         self.errors += 1
